@@ -140,6 +140,13 @@ impl Monitor for C06 {
                 ctx.check(&Case::new(ev, "boundary", &s, Val::I(ph)), &|c, st| self.judge(c, st));
             }
         }
+        // three operations sharing an operand, and the shape family (gen::repeated_operand_family, shape_family)
+        for (c, e) in repeated_operand_family(ev).into_iter().chain(shape_family(ev)) {
+            if ctx.mine() {
+                let s = c.replace("{h}", &format!("({})", e));
+                ctx.check(&Case::new(ev, "shape", &s, Val::I(0)), &|c, st| self.judge(c, st));
+            }
+        }
         // powers next to the range boundaries, in every spelling
         let np = ctx.tier.pick(20_000u64, 400_000);
         for i in 0..np {
